@@ -34,6 +34,12 @@ CLAIMED['C09'] = ("reference-model monitor: exact arrangement-based intersects a
 CLAIMED['C15'] = ("reference-model monitor: Boundary compared as a point set with the exact locate()=B set on every arrangement cell; PointOnSurface located exactly; structural monitors for collections and dimension",
   "Exploration by runtime monitoring: generated valid geometries of every type plus targeted families (narrow comb polygons, rectangles whose envelope-centre row hits a vertex with holes above/below, multilinestring junctions) are passed to Boundary, PointOnSurface, Dimension and IsEmpty, and each result is judged by the exact interior/boundary model.",
   "exact locate per OGC mod-2 rule; collections judged structurally", "DESIGN.md §3 C15")
+CLAIMED['C04'] = ("reference-model monitor: neutral tree model + independent WKB reader/writer compared bitwise with AsBinary/UnmarshalWKB/Scan/Value over generated trees and every per-element byte-order assignment; thorough tier repeats under checkptr and AddressSanitizer builds in sacrificial workers",
+  "Exploration by runtime monitoring: thousands of arbitrary geometry trees per run (7 types x 4 coordinate types, empty members at every position, nesting <= 4, all float64 classes incl. NaN/Inf in Z/M) are encoded by the library and by an independent writer, decoded under all 2^k byte-order assignments (k<=6; sampled beyond), with trailing bytes, prefixes, and through the Value/Scan adapters of every Go type. Sanitizer passes report 'no report on N executions', not memory safety.",
+  "trusts verif/model and verif/codec (WKB written from the ISO layout); Scan round trips only for oracle-valid geometries", "DESIGN.md §3 C04")
+CLAIMED['C05'] = ("reference-model monitor: tree model round trip, strict OGC-BNF parser on the library's text, shortest-numeral check, independent printer producing token-level re-spellings, trailing-token and WKT-vs-WKB monitors",
+  "Exploration by runtime monitoring: thousands of arbitrary finite-ordinate trees per run plus the zero value of every Go type are rendered by AsText/AppendWKT and re-parsed; the text is judged by an independent strict grammar and 16 re-spellings per tree are fed back to UnmarshalWKT. Holds for the trees observed.",
+  "exact decimal conversion via math/big; only the geometry-type keyword's case is varied (as the statement says)", "DESIGN.md §3 C05")
 REASONS = {}
 hooks_commits = subprocess.run(['git','-C','/repo','log','--format=%h %s'],capture_output=True,text=True).stdout.splitlines()
 hook_commits = [l.split()[0] for l in hooks_commits if l.split(' ',1)[1].startswith('verif hook')]
